@@ -26,12 +26,22 @@ theorem doAncestors_nd {α} {now : Int} {fn : String → LM α} (hfn : ∀ n, (f
   doAncestors_no_diverge hfn (fun m l => (hnd m l).ne) (fun l => (locGetParentsRaw_nd now l).ne) _ sys n acc []
     wf ⟨List.nodup_nil, by simp⟩ (by simp [ancestorFuel])
 
+theorem tagged_nd {α} {fn : String → LM α} (h : ∀ n, (fn n).NoDiv) (n : String) : (tagged fn n).NoDiv :=
+  LM.NoDiv.bind (h n) (fun _ => LM.NoDiv.pure _)
+
+theorem tagged_keepsName {α} {fn : String → LM α} (h : ∀ n, (fn n).KeepsName) (n : String) : (tagged fn n).KeepsName := by
+  intro l
+  unfold tagged LM.bind
+  have := h n l
+  cases hml : fn n l with
+  | mk l1 r => rw [hml] at this; cases r <;> exact this
+
 theorem sysSearchFacts_nd {sys : Sys} (wf : SysWF sys) (c : Ctx) (n : String) (p : Obj) (inh : Bool) (now : Int) :
     (sysSearchFacts sys c n p inh now).2 ≠ .error "diverge" := by
   unfold sysSearchFacts
   split
-  · have h := doAncestors_nd (now := now) (fn := fun _ => locSearchFacts c p now)
-      (fun _ => (locSearchFacts_keeps c p now).keepsName) (fun _ => locSearchFacts_nd c p now) wf n []
+  · have h := doAncestors_nd (now := now) (fn := tagged (fun _ => locSearchFacts c p now))
+      (tagged_keepsName (fun _ => (locSearchFacts_keeps c p now).keepsName)) (tagged_nd (fun _ => locSearchFacts_nd c p now)) wf n []
     split
     · intro h'; cases h'
     · rename_i s e heq
@@ -42,8 +52,8 @@ theorem sysSearchFacts_nd {sys : Sys} (wf : SysWF sys) (c : Ctx) (n : String) (p
 theorem sysSearchRulesAnc_nd {sys : Sys} (wf : SysWF sys) (c : Ctx) (n : String) (ev : Obj) (now : Int) :
     (sysSearchRulesAnc sys c n ev now).2 ≠ .error "diverge" := by
   unfold sysSearchRulesAnc
-  have h := doAncestors_nd (now := now) (fn := fun _ => locSearchRules c ev now)
-    (fun _ => (locSearchRules_keeps c ev now).keepsName) (fun _ => locSearchRules_nd c ev now) wf n []
+  have h := doAncestors_nd (now := now) (fn := tagged (fun _ => locSearchRules c ev now))
+    (tagged_keepsName (fun _ => (locSearchRules_keeps c ev now).keepsName)) (tagged_nd (fun _ => locSearchRules_nd c ev now)) wf n []
   split
   · rename_i s e heq
     rw [heq] at h
